@@ -1,17 +1,27 @@
-//! C08, protocol entry point: a real `RootHandler` handling `SignWithdrawal` with a streamed PSBT built by
-//! the harness.  The segwit flags the policy sees are the ones the real `StreamedPSBT` decoder produced from
-//! what the PSBT *presents* per input (previous tx supplied / only an unverifiable `witness_utxo` / both),
-//! while the monitor judges by the TRUE script type of the coin each input really spends, which only the
-//! harness knows.  No Lean model (the PSBT codec belongs to C19); monitors only.
+//! C08, protocol entry point: a real `RootHandler` handling `SignWithdrawal` / `SignHtlcTxMingle` / `SignAnchorspend`
+//! with a streamed PSBT built by the harness.  The segwit flags the policy sees are the ones the real `StreamedPSBT`
+//! decoder produced from what the PSBT *presents* per input (previous tx supplied / only an unverifiable
+//! `witness_utxo` / both / nothing at all), while the monitor judges by the TRUE script type and value of the coin each
+//! input really spends, which only the harness knows.  No Lean model (the PSBT codec belongs to C19); monitors only.
 //!
 //! Op line (each op builds a fresh handler, so a panic poisons nothing):
-//!   wd <fund 0|1> <approver n|p> <unknown-output 0|1> <inputs kind:type:pres:claim,..>
+//!   wd <fund 0|1> <approver n|p> <unknown-output 0|1> <inputs kind:type:pres:claim[:rec],..> [o] [m=<w|h|a|A>]
 //!     kind  o = own wallet coin (key index 1+i, listed in `utxos`, gets signed) | f = somebody else's coin
 //!     type  TRUE script type of the spent output: w p2wpkh | t p2tr | k p2pkh | s p2sh-p2wpkh
 //!     pres  n = non_witness_utxo (previous tx) supplied | u = only witness_utxo | b = both
 //!           x = a forged previous tx (wrong txid) whose output is the claimed script
+//!           z = the PSBT input carries NEITHER witness_utxo NOR non_witness_utxo (the only description of the coin
+//!               is then the node-supplied `Utxo` record of the request)
 //!     claim (script in the witness_utxo) t = the true script | w = "p2wpkh of the same key"
 //!           v = the true script with the value understated by 500_000 sat
+//!     rec   (optional, default t; what the `Utxo` record of the request says for an own coin)
+//!           t = true amount and script | v = true script, amount understated by 500_000 sat
+//!           w = true amount, script "p2wpkh of the same key"
+//!     o     the node runs vlsd's default OnchainValidatorFactory
+//!     m=    message kind carrying the same utxos + PSBT: w SignWithdrawal (default) | h SignHtlcTxMingle (peer/dbid of
+//!           no channel) | a SignAnchorspend for an EXISTING channel (peer/dbid made by new_channel + setup_channel; the
+//!           harness appends that channel's anchor output as one more, foreign, segwit input) | A SignAnchorspend naming a
+//!           channel that does not exist (sign_withdrawal runs, then the reply fails: no signatures are returned)
 use super::{foreign_key, key_script, to_dp, NET};
 use crate::common::*;
 use lightning_signer::bitcoin::absolute::LockTime;
@@ -33,7 +43,7 @@ use std::collections::BTreeMap;
 use std::sync::Arc;
 use vls_persist::kvv::memory::MemoryKVVStore;
 use vls_persist::kvv::{JsonFormat, KVVPersister};
-use vls_protocol::model::{Bip32KeyVersion, Utxo};
+use vls_protocol::model::{Bip32KeyVersion, PubKey, Utxo};
 use vls_protocol::msgs::{self, Message};
 use vls_protocol::psbt::StreamedPSBT;
 use vls_protocol::serde_bolt::{Array, Octets, WithSize};
@@ -41,12 +51,41 @@ use vls_protocol_signer::approver::{Approve, NegativeApprover, PositiveApprover}
 use vls_protocol_signer::handler::{Handler, HandlerBuilder, RootHandler};
 
 const UNDERSTATE: u64 = 500_000;
+/// peer / dbid of the channel a SignAnchorspend (m=a) names; m=A and m=h name (PEER, NO_DBID), which never exists
+const PEER: [u8; 33] = [2u8; 33];
+const DBID: u64 = 7;
+const NO_DBID: u64 = 99;
 
+#[derive(Clone)]
 struct In {
     own: bool,
     ty: char,
     pres: char,
     claim: char,
+    rec: char,
+}
+
+impl In {
+    fn show(&self) -> String {
+        format!("{}{}{}{}", self.ty, self.pres, self.claim, if self.rec == 't' { String::new() } else { format!("/{}", self.rec) })
+    }
+    /// the value of the coin as the request presents it to the signer (what the transaction's outputs were sized for)
+    fn presented(&self, value: u64) -> u64 {
+        let under = match self.pres {
+            'n' => false,
+            'z' => self.own && self.rec == 'v',
+            _ => self.claim == 'v',
+        };
+        if under { value - UNDERSTATE } else { value }
+    }
+    /// is the script the signer can see for this coin (if it sees any) the true one
+    fn script_true(&self) -> bool {
+        match self.pres {
+            'n' => true,
+            'z' => self.rec != 'w',
+            _ => self.claim != 'w' || self.ty == 'w',
+        }
+    }
 }
 
 fn root_handler(approve: bool, onchain: bool) -> Option<RootHandler> {
@@ -82,7 +121,7 @@ fn root_handler(approve: bool, onchain: bool) -> Option<RootHandler> {
 pub struct C08Psbt;
 
 impl C08Psbt {
-    fn exec_wd(&self, fund: bool, approve: bool, unknown: bool, onchain: bool, ins: &[In], at: usize, co: &mut CaseOut) -> String {
+    fn exec_wd(&self, fund: bool, approve: bool, unknown: bool, onchain: bool, msg: char, ins_in: &[In], at: usize, co: &mut CaseOut) -> String {
         let handler = match root_handler(approve, onchain) {
             Some(h) => h,
             None => return "harness-setup-failed handler".into(),
@@ -90,11 +129,34 @@ impl C08Psbt {
         let node_ctx = TestNodeContext { node: Arc::clone(handler.node()), secp_ctx: Secp256k1::signing_only() };
         let node = node_ctx.node.clone();
         let secp = Secp256k1::new();
+        let msg_name = match msg {
+            'h' => "SignHtlcTxMingle",
+            'a' | 'A' => "SignAnchorspend",
+            _ => "SignWithdrawal",
+        };
+        // SignAnchorspend for an existing channel: the channel the message names, and its anchor output as one more input
+        let mut ins: Vec<In> = ins_in.to_vec();
+        let mut anchor_script: Option<ScriptBuf> = None;
+        if msg == 'a' {
+            let made = node.new_channel(DBID, &PEER, &node).and_then(|(cid, _)| {
+                let mut setup = make_test_channel_setup();
+                setup.funding_outpoint = OutPoint { txid: Txid::from_slice(&[0x5a; 32]).unwrap(), vout: 1 };
+                node.setup_channel(cid.clone(), None, setup, &DerivationPath::master())?;
+                node.with_channel(&cid, |c| Ok(c.get_anchor_redeemscript().to_p2wsh()))
+            });
+            match made {
+                Ok(s) => {
+                    anchor_script = Some(s);
+                    ins.push(In { own: false, ty: 'a', pres: 'n', claim: 't', rec: 't' });
+                }
+                Err(st) => return format!("harness-setup-failed anchor channel: {}", st.message()),
+            }
+        }
+        let ins = &ins[..];
         // the coins really spent
         let mut prev_txs = vec![];
         let mut keys = vec![];
         let mut total: u64 = 0; // as presented to the signer
-        let mut true_total: u64 = 0;
         for (i, inp) in ins.iter().enumerate() {
             let pk: PublicKey = if inp.own {
                 let x = node.get_account_extended_key().derive_priv(&secp, &to_dp(&[1 + i as u32])).unwrap();
@@ -103,13 +165,16 @@ impl C08Psbt {
                 foreign_key(4000 + i as u32)
             };
             let value = 2_000_000 + 1000 * i as u64;
-            total += if inp.claim == 'v' && inp.pres != 'n' { value - UNDERSTATE } else { value };
-            true_total += value;
+            total += inp.presented(value);
+            let script = match (&anchor_script, inp.ty) {
+                (Some(s), 'a') => s.clone(),
+                _ => key_script(&pk, inp.ty),
+            };
             let ptx = Transaction {
                 version: Version::TWO,
                 lock_time: LockTime::ZERO,
                 input: vec![TxIn { previous_output: OutPoint { txid: Txid::all_zeros(), vout: i as u32 }, script_sig: ScriptBuf::new(), sequence: Sequence::ZERO, witness: Witness::default() }],
-                output: vec![TxOut { value: Amount::from_sat(value), script_pubkey: key_script(&pk, inp.ty) }],
+                output: vec![TxOut { value: Amount::from_sat(value), script_pubkey: script }],
             };
             prev_txs.push(ptx);
             keys.push(pk);
@@ -174,17 +239,24 @@ impl C08Psbt {
             if inp.pres == 'u' || inp.pres == 'b' {
                 psbt.inputs[i].witness_utxo = Some(claimed);
             }
+            // pres z: nothing at all in the PSBT input
             if inp.own {
                 if inp.ty == 's' {
                     psbt.inputs[i].redeem_script = Some(key_script(&keys[i], 'w'));
                 }
+                // what the node-supplied record says about the coin
+                let (rec_amount, rec_script) = match inp.rec {
+                    'v' => (true_out.value.to_sat() - UNDERSTATE, true_out.script_pubkey.clone()),
+                    'w' => (true_out.value.to_sat(), key_script(&keys[i], 'w')),
+                    _ => (true_out.value.to_sat(), true_out.script_pubkey.clone()),
+                };
                 utxos.push(Utxo {
                     txid: prev_txs[i].compute_txid(),
                     outnum: 0,
-                    amount: true_out.value.to_sat(),
+                    amount: rec_amount,
                     keyindex: 1 + i as u32,
                     is_p2sh: inp.ty == 's',
-                    script: Octets(true_out.script_pubkey.to_bytes()),
+                    script: Octets(rec_script.to_bytes()),
                     close_info: None,
                     is_in_coinbase: false,
                 });
@@ -205,56 +277,105 @@ impl C08Psbt {
         };
         // the decoder must have refused a witness_utxo that disagrees with the supplied previous tx, and a forged previous tx
         if ins.iter().any(|i| (i.pres == 'b' && (i.claim == 'v' || (i.claim == 'w' && i.ty != 'w'))) || i.pres == 'x') {
-            co.violations.push(Violation { kind: "psbt-utxo-mismatch-accepted".into(), desc: format!("the streamed PSBT decoder accepted inputs presented as {} (b+w/v: witness_utxo differs from the previous tx output; x: previous tx with the wrong txid)", ins.iter().map(|i| format!("{}{}{}", i.ty, i.pres, i.claim)).collect::<Vec<_>>().join(",")), at });
+            co.violations.push(Violation { kind: "psbt-utxo-mismatch-accepted".into(), desc: format!("the streamed PSBT decoder accepted inputs presented as {} (b+w/v: witness_utxo differs from the previous tx output; x: previous tx with the wrong txid)", ins.iter().map(|i| i.show()).collect::<Vec<_>>().join(",")), at });
         }
         let flags = streamed.segwit_flags.clone();
         for (i, inp) in ins.iter().enumerate() {
-            if flags.get(i) == Some(&true) && inp.pres == 'u' {
+            if flags.get(i) == Some(&true) && (inp.pres == 'u' || inp.pres == 'z') {
                 co.tags.insert("psbt:unverified-input-flagged-segwit".into());
             }
         }
+        let any_z = ins.iter().any(|i| i.pres == 'z');
+        // the reply carries the PSBT with the released witnesses; its type differs per message kind
         let res = std::panic::catch_unwind(std::panic::AssertUnwindSafe(|| {
-            handler.handle(Message::SignWithdrawal(msgs::SignWithdrawal { utxos: Array(utxos), psbt: WithSize(streamed) })).map(|reply| {
-                reply.as_any().downcast_ref::<msgs::SignWithdrawalReply>().map(|r| r.psbt.0.inner.clone())
+            let utxos = Array(utxos);
+            let psbt = WithSize(streamed);
+            let m = match msg {
+                'h' => Message::SignHtlcTxMingle(msgs::SignHtlcTxMingle { peer_id: PubKey(PEER), dbid: NO_DBID, utxos, psbt }),
+                'a' => Message::SignAnchorspend(msgs::SignAnchorspend { peer_id: PubKey(PEER), dbid: DBID, utxos, psbt }),
+                'A' => Message::SignAnchorspend(msgs::SignAnchorspend { peer_id: PubKey(PEER), dbid: NO_DBID, utxos, psbt }),
+                _ => Message::SignWithdrawal(msgs::SignWithdrawal { utxos, psbt }),
+            };
+            handler.handle(m).map(|reply| {
+                let any = reply.as_any();
+                if let Some(r) = any.downcast_ref::<msgs::SignWithdrawalReply>() {
+                    Some(r.psbt.0.inner.clone())
+                } else if let Some(r) = any.downcast_ref::<msgs::SignHtlcTxMingleReply>() {
+                    Some(r.psbt.0.inner.clone())
+                } else if let Some(r) = any.downcast_ref::<msgs::SignAnchorspendReply>() {
+                    Some(r.psbt.0.inner.clone())
+                } else {
+                    None
+                }
             })
         }));
         let flags_s: String = flags.iter().map(|b| if *b { '1' } else { '0' }).collect();
+        co.tags.insert(format!("wd:msg:{}", msg_name));
         match res {
             Err(_) => {
                 co.tags.insert("wd:panic".into());
+                if any_z {
+                    co.tags.insert("wd:z-input:panic".into());
+                }
                 format!("panic flags={}", flags_s)
             }
             Ok(Err(e)) => {
                 let m = format!("{:?}", e);
                 let short = if m.contains("non-segwit-native") { "non-malleable" } else if m.contains("unapproved") { "unapproved" } else { "other" };
                 co.tags.insert(format!("wd:refused:{}", short));
+                if any_z {
+                    co.tags.insert("wd:z-input:refused".into());
+                }
                 format!("refused:{} flags={}", short, flags_s)
             }
             Ok(Ok(signed)) => {
-                let n_sigs = signed.map(|p| p.inputs.iter().filter(|i| i.final_script_witness.is_some()).count()).unwrap_or(0);
+                // which inputs got a witness released
+                let signed_in: Vec<bool> = (0..ins.len()).map(|i| signed.as_ref().and_then(|p| p.inputs.get(i)).map(|x| x.final_script_witness.is_some()).unwrap_or(false)).collect();
+                let n_sigs = signed_in.iter().filter(|b| **b).count();
                 co.tags.insert("wd:signed".into());
+                co.tags.insert(format!("wd:signed:{}", msg_name));
+                if any_z {
+                    co.tags.insert("wd:z-input:signed".into());
+                }
                 if unknown && !approve {
-                    co.violations.push(Violation { kind: "unapproved-destination-signed".into(), desc: format!("SignWithdrawal signed ({} witnesses) although the tx pays an unknown destination and the approver declined", n_sigs), at });
+                    co.violations.push(Violation { kind: "unapproved-destination-signed".into(), desc: format!("{} signed ({} witnesses) although the tx pays an unknown destination and the approver declined", msg_name, n_sigs), at });
                 }
                 // ---- monitor: the fee really paid (true input values) against the default max feerate; own coins only can
-                // be lost, and only where the signature does not commit to the amount (legacy p2pkh)
-                let own_legacy_understated = ins.iter().any(|i| i.own && i.ty == 'k' && i.claim == 'v' && i.pres == 'u');
-                if !unknown && own_legacy_understated {
+                // be lost, and only where the signature does not commit to the amount (legacy p2pkh).  Whatever the source of
+                // the too-small value the signer worked with (an unverifiable witness_utxo, or - with nothing in the PSBT
+                // input - the node-supplied Utxo record): the outputs were sized for the presented total, so the part of the
+                // coin's true value above the presented one goes to the miners once the released signature is used.
+                let mut hidden: u64 = 0;
+                let mut via_record = false;
+                let mut via_witness_utxo = false;
+                for (i, inp) in ins.iter().enumerate() {
+                    let value = prev_txs[i].output[0].value.to_sat();
+                    if inp.own && inp.ty == 'k' && signed_in[i] && inp.script_true() && inp.presented(value) < value {
+                        hidden += value - inp.presented(value);
+                        if inp.pres == 'z' { via_record = true } else { via_witness_utxo = true }
+                    }
+                }
+                if !unknown && hidden > 0 {
                     let w = psbt_weight as u128 + 110 * ins.len() as u128;
-                    let true_fee = (true_total - chan_amt - change) as u128;
+                    let true_fee = (fee + hidden) as u128;
                     if (true_fee * 1000 + 999) / w > 333_333 {
-                        co.violations.push(Violation { kind: "legacy-input-value-unverified".into(), desc: format!("SignWithdrawal signed a tx that really pays {} sat of fee ({} sat/kw) from an own p2pkh coin whose value was understated in an unverified witness_utxo", true_fee, (true_fee * 1000 + 999) / w), at });
+                        if via_witness_utxo {
+                            co.violations.push(Violation { kind: "legacy-input-value-unverified".into(), desc: format!("{} signed a tx that really pays {} sat of fee ({} sat/kw) from an own p2pkh coin whose value was understated in an unverified witness_utxo", msg_name, true_fee, (true_fee * 1000 + 999) / w), at });
+                        }
+                        if via_record {
+                            co.violations.push(Violation { kind: "input-value-from-unverified-record".into(), desc: format!("{} signed a tx that really pays {} sat of fee ({} sat/kw, policy max 333333) from an own p2pkh coin that the PSBT does not describe at all (no witness_utxo, no previous tx): the only value the signer can have used is the node-supplied Utxo record, which understates the coin by {} sat; inputs {}", msg_name, true_fee, (true_fee * 1000 + 999) / w, UNDERSTATE, ins.iter().map(|i| i.show()).collect::<Vec<_>>().join(",")), at });
+                        }
                     }
                 }
                 // ---- monitor: judged by the TRUE type of the coins
-                let legacy: Vec<usize> = ins.iter().enumerate().filter(|(_, i)| !"wt".contains(i.ty)).map(|(k, _)| k).collect();
+                let legacy: Vec<usize> = ins.iter().enumerate().filter(|(_, i)| !"wta".contains(i.ty)).map(|(k, _)| k).collect();
                 if fund && !legacy.is_empty() {
                     co.violations.push(Violation {
                         kind: "funding-non-segwit-input-accepted".into(),
                         desc: format!(
-                            "SignWithdrawal signed ({} witnesses released) a tx funding a channel although input(s) {:?} really spend non-segwit-native outputs; presented as {}; decoded segwit_flags = {}",
-                            n_sigs, legacy,
-                            ins.iter().map(|i| format!("{}{}{}", i.ty, i.pres, i.claim)).collect::<Vec<_>>().join(","), flags_s),
+                            "{} signed ({} witnesses released) a tx funding a channel although input(s) {:?} really spend non-segwit-native outputs; presented as {}; decoded segwit_flags = {}",
+                            msg_name, n_sigs, legacy,
+                            ins.iter().map(|i| i.show()).collect::<Vec<_>>().join(","), flags_s),
                         at,
                     });
                 }
@@ -268,10 +389,14 @@ fn parse_ins(s: &str) -> Option<Vec<In>> {
     s.split(',')
         .map(|x| {
             let p: Vec<&str> = x.split(':').collect();
-            if p.len() != 4 {
+            if p.len() != 4 && p.len() != 5 {
                 return None;
             }
-            Some(In { own: p[0] == "o", ty: p[1].chars().next()?, pres: p[2].chars().next()?, claim: p[3].chars().next()? })
+            let ty = p[1].chars().next()?;
+            if !"wtks".contains(ty) {
+                return None;
+            }
+            Some(In { own: p[0] == "o", ty, pres: p[2].chars().next()?, claim: p[3].chars().next()?, rec: p.get(4).and_then(|r| r.chars().next()).unwrap_or('t') })
         })
         .collect()
 }
@@ -280,11 +405,13 @@ impl Group for C08Psbt {
     fn property(&self) -> &'static str { "C08" }
     fn model(&self) -> Option<&'static str> { None }
     fn rule(&self) -> &'static str {
-        "protocol entry point: real RootHandler (HsmdInit, Positive/NegativeApprover, KVV persister) handling SignWithdrawal with a \
+        "protocol entry point: real RootHandler (HsmdInit, Positive/NegativeApprover, KVV persister) handling the same request as \
+         SignWithdrawal, SignHtlcTxMingle or SignAnchorspend (existing channel with its anchor input / non-existing channel) with a \
          harness-built streamed PSBT: 1-3 inputs (own wallet coins that get signed / foreign coins; true type p2wpkh, p2tr, p2pkh, \
-         p2sh-p2wpkh; previous tx supplied, only a witness_utxo - honest or claiming p2wpkh -, or both), optionally funding a validated \
-         channel and paying an unknown destination; the monitor judges by the true prevout script types; non-trivial = one signed and \
-         one refused request"
+         p2sh-p2wpkh; previous tx supplied, only a witness_utxo - honest, claiming p2wpkh or understating the value -, both, or nothing \
+         at all in the PSBT input while the node-supplied Utxo record states the true amount, an understated amount or another script), \
+         optionally funding a validated channel and paying an unknown destination; the monitors judge by the true prevout script types \
+         and values; non-trivial = one signed and one refused request"
     }
     fn budget(&self, tier: Tier) -> usize { if tier == Tier::Quick { 500 } else { 10000 } }
     fn corpus(&self) -> Vec<Vec<String>> {
@@ -298,25 +425,46 @@ impl Group for C08Psbt {
             c("wd 0 p 0 o:k:u:v|wd 0 p 0 o:k:n:t|wd 0 p 0 o:w:u:v"),
             // a forged previous tx (txid mismatch) claiming a p2wpkh output for a legacy coin; both utxo forms disagreeing
             c("wd 1 n 0 o:w:n:t,f:k:x:w|wd 1 n 0 o:w:n:t,f:k:b:w"),
+            // the same request through the three message kinds: an unknown destination with a declining approver is refused by all
+            // of them, without it SignHtlcTxMingle / SignAnchorspend (existing channel + its anchor input) sign
+            c("wd 0 n 1 o:w:n:t m=h|wd 0 n 1 o:w:n:t m=a|wd 0 n 1 o:w:n:t m=A|wd 0 n 0 o:w:n:t m=h|wd 0 n 0 o:w:n:t m=a|wd 0 n 0 o:w:n:t m=A"),
+            // a PSBT input that describes nothing (no witness_utxo, no previous tx): an own p2pkh coin whose Utxo record understates
+            // the amount must not be signed on the strength of that record, through any message kind
+            c("wd 0 p 0 o:k:z:t:v|wd 0 p 0 o:k:z:t:v m=h|wd 0 p 0 o:k:z:t:t|wd 0 p 0 o:k:n:t:v"),
+            c("wd 0 n 0 o:w:n:t,o:k:z:t:v m=a|wd 0 n 0 o:w:z:t:v|wd 0 n 0 o:k:z:t:w|wd 0 n 0 o:w:n:t"),
         ]
     }
     fn gen_case(&self, rng: &mut Rng, _tier: Tier) -> Vec<String> {
         let n = rng.range(2, 4);
         let mut ops = vec![];
         for _ in 0..n {
-            let fund = rng.chance(3, 4);
             let unknown = rng.chance(1, 5);
             let approve = rng.chance(1, 2);
             let n_in = rng.range(1, 3) as usize;
             let mut ins = vec![];
+            let mut any_legacy = false;
             for i in 0..n_in {
                 let own = i == 0 || rng.chance(1, 3);
                 let ty = *rng.pick(&['w', 'w', 'w', 't', 'k', 's']);
-                let pres = *rng.pick(&['n', 'n', 'n', 'u', 'u', 'b', 'x']);
-                let claim = if pres == 'n' { 't' } else if pres == 'x' { 'w' } else { *rng.pick(&['w', 'w', 't', 't', 'v']) };
-                ins.push(format!("{}:{}:{}:{}", if own { 'o' } else { 'f' }, ty, pres, claim));
+                any_legacy |= ty == 'k' || ty == 's';
+                let pres = *rng.pick(&['n', 'n', 'n', 'u', 'u', 'b', 'x', 'z', 'z']);
+                let claim = if pres == 'n' || pres == 'z' { 't' } else if pres == 'x' { 'w' } else { *rng.pick(&['w', 'w', 't', 't', 'v']) };
+                // what the Utxo record says: matters (if at all) where the PSBT says nothing
+                let rec = if !own { 't' } else if pres == 'z' { *rng.pick(&['t', 'v', 'v', 'w']) } else { *rng.pick(&['t', 't', 't', 't', 'v', 'w']) };
+                ins.push(format!("{}:{}:{}:{}{}", if own { 'o' } else { 'f' }, ty, pres, claim, if rec == 't' { String::new() } else { format!(":{}", rec) }));
             }
-            ops.push(format!("wd {} {} {} {}{}", if fund { 1 } else { 0 }, if approve { 'p' } else { 'n' }, if unknown { 1 } else { 0 }, ins.join(","), if rng.chance(1, 3) { " o" } else { "" }));
+            // a channel-funding tx with a legacy input is always refused: fund those less often
+            let fund = if any_legacy { rng.chance(1, 2) } else { rng.chance(3, 4) };
+            let msg = *rng.pick(&['w', 'w', 'w', 'w', 'h', 'h', 'a', 'A']);
+            ops.push(format!(
+                "wd {} {} {} {}{}{}",
+                if fund { 1 } else { 0 },
+                if approve { 'p' } else { 'n' },
+                if unknown { 1 } else { 0 },
+                ins.join(","),
+                if rng.chance(1, 3) { " o" } else { "" },
+                if msg == 'w' { String::new() } else { format!(" m={}", msg) }
+            ));
         }
         ops
     }
@@ -326,10 +474,12 @@ impl Group for C08Psbt {
         for (i, op) in ops.iter().enumerate() {
             let t: Vec<&str> = op.split_whitespace().collect();
             let line = match t.as_slice() {
-                ["wd", fund, ap, unk, ins] | ["wd", fund, ap, unk, ins, _] => match parse_ins(ins) {
+                ["wd", fund, ap, unk, ins, rest @ ..] if rest.iter().all(|r| *r == "o" || ["m=w", "m=h", "m=a", "m=A"].contains(r)) => match parse_ins(ins) {
                     Some(ins) => {
-                        // a trailing `o`: the node runs vlsd's default OnchainValidatorFactory
-                        let l = self.exec_wd(*fund == "1", *ap == "p", *unk == "1", t.get(5) == Some(&"o"), &ins, i, &mut co);
+                        // a trailing `o`: the node runs vlsd's default OnchainValidatorFactory; `m=<k>`: the message kind
+                        let onchain = rest.contains(&"o");
+                        let msg = rest.iter().find_map(|r| r.strip_prefix("m=")).and_then(|k| k.chars().next()).unwrap_or('w');
+                        let l = self.exec_wd(*fund == "1", *ap == "p", *unk == "1", onchain, msg, &ins, i, &mut co);
                         if l.starts_with("signed") { acc = true } else { rej = true }
                         l
                     }
